@@ -28,6 +28,13 @@ theorem C16_rename_den (π : Var → Var) (f : Factor) (a : Asg) :
   unfold Factor.rename den
   simp [List.map_map]
 
+/-- **renaming and renaming back is the identity**: a table carried to other variable names (strings, ints, tuples -
+    any injective relabelling with left inverse ρ) and back is the very same table -/
+theorem C16_rename_roundtrip (π ρ : Var → Var) (h : ∀ v, ρ (π v) = v) (f : Factor) :
+    (f.rename π).rename ρ = f := by
+  unfold Factor.rename
+  simp [List.map_map, Function.comp_def, h]
+
 theorem C16_rename_joint (π : Var → Var) (fs : List Factor) (a : Asg) :
     jointDen (fs.map (Factor.rename π)) a = jointDen fs (a ∘ π) := by
   unfold jointDen
